@@ -4,6 +4,7 @@ import (
 	"fmt"
 	"net/http"
 	"net/http/httptest"
+	"slices"
 	"strings"
 
 	"foxverif/hx"
@@ -18,16 +19,31 @@ type tmpl struct {
 	keys    []string
 	path    func(i int, v []string) string
 	tsrOK   bool // toggling the trailing slash yields a trailing-slash match with the same params
+	host    func(i int, v []string) string // nil: path-only route
+}
+
+// hostname route family: a static and a parameter label as siblings (the host walk records skipped nodes
+// for backtracking), another branch, and a leading-parameter branch. Expectations for these come from a
+// fresh router (oracle), not from the template.
+var hostFamily = []tmpl{
+	{name: "h-static", pattern: func(i int) string { return fmt.Sprintf("api.prod.ex%d.com/hx", i) }, path: func(i int, v []string) string { return "/hx" },
+		host: func(i int, v []string) string { return fmt.Sprintf("api.prod.ex%d.com", i) }, tsrOK: true},
+	{name: "h-param", pattern: func(i int) string { return fmt.Sprintf("api.{env}.ex%d.com/hx", i) }, keys: []string{"env"}, path: func(i int, v []string) string { return "/hx" },
+		host: func(i int, v []string) string { return fmt.Sprintf("api.%s.ex%d.com", v[0], i) }, tsrOK: true},
+	{name: "h-www", pattern: func(i int) string { return fmt.Sprintf("www.ex%d.com/hx", i) }, path: func(i int, v []string) string { return "/hx" },
+		host: func(i int, v []string) string { return fmt.Sprintf("www.ex%d.com", i) }, tsrOK: true},
+	{name: "h-lead", pattern: func(i int) string { return fmt.Sprintf("{sub}.svc.ex%d.com/hy/{a}", i) }, keys: []string{"sub", "a"}, path: func(i int, v []string) string { return "/hy/" + v[1] },
+		host: func(i int, v []string) string { return fmt.Sprintf("%s.svc.ex%d.com", v[0], i) }, tsrOK: true},
 }
 
 var tmpls = []tmpl{
-	{"static", func(i int) string { return fmt.Sprintf("/s%d/home", i) }, nil, func(i int, v []string) string { return fmt.Sprintf("/s%d/home", i) }, true},
-	{"param1", func(i int) string { return fmt.Sprintf("/p%d/{a}", i) }, []string{"a"}, func(i int, v []string) string { return fmt.Sprintf("/p%d/%s", i, v[0]) }, true},
-	{"param2", func(i int) string { return fmt.Sprintf("/q%d/{a}/x/{b}", i) }, []string{"a", "b"}, func(i int, v []string) string { return fmt.Sprintf("/q%d/%s/x/%s", i, v[0], v[1]) }, true},
-	{"param3", func(i int) string { return fmt.Sprintf("/m%d/{a}/{b}/{c}", i) }, []string{"a", "b", "c"}, func(i int, v []string) string { return fmt.Sprintf("/m%d/%s/%s/%s", i, v[0], v[1], v[2]) }, true},
-	{"slash", func(i int) string { return fmt.Sprintf("/d%d/{a}/", i) }, []string{"a"}, func(i int, v []string) string { return fmt.Sprintf("/d%d/%s/", i, v[0]) }, true},
-	{"catchall", func(i int) string { return fmt.Sprintf("/c%d/*{rest}", i) }, []string{"rest"}, func(i int, v []string) string { return fmt.Sprintf("/c%d/%s/more", i, v[0]) }, false},
-	{"infix", func(i int) string { return fmt.Sprintf("/i%d/*{mid}/end/{b}", i) }, []string{"mid", "b"}, func(i int, v []string) string { return fmt.Sprintf("/i%d/%s/deep/end/%s", i, v[0], v[1]) }, false},
+	{"static", func(i int) string { return fmt.Sprintf("/s%d/home", i) }, nil, func(i int, v []string) string { return fmt.Sprintf("/s%d/home", i) }, true, nil},
+	{"param1", func(i int) string { return fmt.Sprintf("/p%d/{a}", i) }, []string{"a"}, func(i int, v []string) string { return fmt.Sprintf("/p%d/%s", i, v[0]) }, true, nil},
+	{"param2", func(i int) string { return fmt.Sprintf("/q%d/{a}/x/{b}", i) }, []string{"a", "b"}, func(i int, v []string) string { return fmt.Sprintf("/q%d/%s/x/%s", i, v[0], v[1]) }, true, nil},
+	{"param3", func(i int) string { return fmt.Sprintf("/m%d/{a}/{b}/{c}", i) }, []string{"a", "b", "c"}, func(i int, v []string) string { return fmt.Sprintf("/m%d/%s/%s/%s", i, v[0], v[1], v[2]) }, true, nil},
+	{"slash", func(i int) string { return fmt.Sprintf("/d%d/{a}/", i) }, []string{"a"}, func(i int, v []string) string { return fmt.Sprintf("/d%d/%s/", i, v[0]) }, true, nil},
+	{"catchall", func(i int) string { return fmt.Sprintf("/c%d/*{rest}", i) }, []string{"rest"}, func(i int, v []string) string { return fmt.Sprintf("/c%d/%s/more", i, v[0]) }, false, nil},
+	{"infix", func(i int) string { return fmt.Sprintf("/i%d/*{mid}/end/{b}", i) }, []string{"mid", "b"}, func(i int, v []string) string { return fmt.Sprintf("/i%d/%s/deep/end/%s", i, v[0], v[1]) }, false, nil},
 }
 
 type rt struct {
@@ -62,6 +78,7 @@ type pending struct {
 	method    string
 	path      string
 	done      bool
+	host      string
 	kindName  string
 	plantedTsr []KV
 }
@@ -91,7 +108,19 @@ func (s *scen) newRouter() {
 func (s *scen) addRoute() {
 	b := s.b
 	s.nroute++
-	r := &rt{t: &tmpls[b.rnd.Intn(len(tmpls))], i: s.nroute, method: hx.Pick(b.rnd, []string{"GET", "GET", "POST"})}
+	if b.rnd.Pct(40) {
+		// a whole hostname family under one index
+		n := 3 + b.rnd.Intn(2)
+		for k := 0; k < n; k++ {
+			s.addOne(&rt{t: &hostFamily[k], i: s.nroute, method: "GET"})
+		}
+		return
+	}
+	s.addOne(&rt{t: &tmpls[b.rnd.Intn(len(tmpls))], i: s.nroute, method: hx.Pick(b.rnd, []string{"GET", "GET", "POST"})})
+}
+
+func (s *scen) addOne(r *rt) {
+	b := s.b
 	switch b.rnd.Intn(3) {
 	case 0:
 		r.ignore = true
@@ -153,7 +182,30 @@ func (s *scen) plan(kind string) *pending {
 		return p
 	}
 	r := hx.Pick(b.rnd, cands)
+	if kind == "hostfail" {
+		var hs []*rt
+		for _, c := range s.routes {
+			if c.t.host != nil {
+				hs = append(hs, c)
+			}
+		}
+		if len(hs) == 0 {
+			p.method, p.path = "GET", "/zz/"+p.tok
+			return p
+		}
+		r = hx.Pick(b.rnd, hs)
+		// hosts that fail (or match) on ANOTHER branch than the one an earlier request took
+		p.host = hx.Pick(b.rnd, []string{
+			fmt.Sprintf("www.%s.ex%d.com", vals[0], r.i), fmt.Sprintf("api.prod.%s.com", vals[0]), fmt.Sprintf("zzz.ex%d.com", r.i),
+			fmt.Sprintf("www.svc.ex%d.com", r.i), fmt.Sprintf("api.%s.ex%d.org", vals[0], r.i), fmt.Sprintf("www.ex%d.com.%s", r.i, vals[0])})
+		p.method, p.path = "GET", hx.Pick(b.rnd, []string{"/hx", "/hx", "/hy/" + vals[1], "/hx/"})
+		s.oracle(p)
+		return p
+	}
 	direct := r.t.path(r.i, vals)
+	if r.t.host != nil {
+		p.host = r.t.host(r.i, vals)
+	}
 	for i, k := range r.t.keys {
 		v := vals[i]
 		if r.t.name == "catchall" {
@@ -176,7 +228,32 @@ func (s *scen) plan(kind string) *pending {
 		p.method, p.path = "OPTIONS", direct
 		p.params = nil
 	}
+	if p.host != "" && (kind == "direct" || kind == "tsr") {
+		s.oracle(p)
+	}
 	return p
+}
+
+// oracle: what the same request gets on a FRESH router holding the same routes (fresh contexts, no history)
+func (s *scen) oracle(p *pending) {
+	f, err := fox.New()
+	hx.Fatal(err)
+	byRoute := map[*fox.Route]*rt{}
+	for _, r := range s.routes {
+		fr, err := f.Handle(r.method, r.t.pattern(r.i), s.handler, fox.WithIgnoreTrailingSlash(r.ignore), fox.WithRedirectTrailingSlash(r.redirect))
+		hx.Fatal(err)
+		byRoute[fr] = r
+	}
+	req := httptest.NewRequest(p.method, p.path, nil)
+	req.Host = p.host
+	fr, cc, tsr := f.Lookup(fox.VerifNewRecorder(httptest.NewRecorder()), req)
+	p.rt, p.tsr, p.params = nil, false, nil
+	if cc != nil {
+		p.rt, p.tsr = byRoute[fr], tsr
+		p.params = paramsKV(slices.Collect(cc.Params()))
+		cc.Close()
+	}
+	s.b.kinds["oracle:fresh-router"]++
 }
 
 func (s *scen) lkCoq(p *pending, d fox.VerifCtx, plantedTsr []KV) string {
@@ -194,6 +271,9 @@ func (s *scen) lkCoq(p *pending, d fox.VerifCtx, plantedTsr []KV) string {
 	ps := p.params
 	if p.rt == nil {
 		ps = nil
+	} else if p.tsr {
+		// what the matcher left in c.params on a trailing-slash match is its own business too (not observable: tsr is set)
+		ps = paramsKV(d.Params)
 	}
 	return fmt.Sprintf("(mkLk %s %s %s %s [])", route, hx.Bool(p.tsr && p.rt != nil), kvs(ps), tsrw)
 }
